@@ -278,8 +278,9 @@ def r19_3(ctx: Ctx) -> RuleResult:
                     rr.bad(fn, n, comp, construct="flat: comprehension")
                 continue
             if len(outer) != 1:
-                rr.bad(fn, n, "the flat projection must loop over the expressions in order", construct="flat: outer loop")
-                return rr
+                # neither the nested loops nor the comprehension this rule reads: the order of the flat list is then
+                # decided by execution (R19.11), not declared wrong
+                raise AnalysisError("R19.3: the flat projection is not written as a loop over the expressions")
             inner = [s for s in outer[0].body if isinstance(s, ast.For) and isinstance(s.iter, ast.Call) and callee_name(s.iter) == "finditer"]
             if len(inner) != 1:
                 rr.bad(fn, outer[0], "each expression's matches must be iterated inside the loop over expressions",
@@ -653,8 +654,27 @@ def projection_by_execution(ctx: Ctx, rule: str, floor: int, only_purity: bool =
             match = MObj(model, "jsonpath.match.JSONPathMatch", {
                 "parts": tuple(at), "obj": here, "path": "$", "root": doc, "parent": None, "children": [], "filter_context": {}})
             exprs = tuple(_Path(model, sel) for sel in selections)
-            got = model.call(query, "_select", [match, exprs, style_value])
-            again = model.call(query, "_select", [match, exprs, style_value]) if got is not RAISES else got
+            # the arguments by what the parameters are declared to be (the helper may be a staticmethod that is handed
+            # the environment, its parameters may have been reordered or renamed)
+            from .common import own_params
+
+            call_args: List[object] = []
+            for pname_ in own_params(fn):
+                ann_ = next((ast.unparse(a_.annotation) for a_ in fn.node.args.args + fn.node.args.kwonlyargs if a_.arg == pname_ and a_.annotation is not None), "")
+                if "JSONPathMatch" in ann_ and "Tuple" not in ann_ and "Iterable" not in ann_:
+                    call_args.append(match)
+                elif "Projection" in ann_:
+                    call_args.append(style_value)
+                elif "JSONPathEnvironment" in ann_:
+                    call_args.append(env)
+                elif ann_:
+                    call_args.append(exprs)
+                else:
+                    raise AnalysisError(f"{rule}: the parameter `{pname_}` of {fn.qualname} has no annotation to tell what it is")
+            if len(call_args) < 3:  # noqa: PLR2004
+                raise AnalysisError(f"{rule}: {fn.qualname} no longer takes a match, the relative queries and the projection style")
+            got = model.call(query, fn.name, list(call_args))
+            again = model.call(query, fn.name, list(call_args)) if got is not RAISES else got
             label = f"{style.lower()} projection of the match at {list(at)} with selections {[[list(x) for x in sel] for sel in selections]}"
             if got is RAISES:
                 rr.bad(fn, fn.node, f"{label} raises {str(model.last_raised).split('.')[-1]}", construct=f"{style} at {list(at)}: raises")
